@@ -211,7 +211,7 @@ fn near_self_strategy(_t: Tier) -> BoxedStrategy<super::c01::Graph> {
         prop_oneof![4 => Just(End::Zero), 2 => any::<u16>().prop_map(End::ToFrag), 1 => Just(End::Prev), 8 => prop_oneof![Just(0u8), Just(0), any::<u8>()].prop_map(End::Back), 1 => (0u16..40).prop_map(End::Abs)],
     )
         .prop_map(|(labels, end)| Frag { labels, end });
-    (vec(frag, 1..=6), any::<bool>()).prop_map(|(frags, as_questions)| Graph { frags, repeat_last: 0, as_questions }).boxed()
+    (vec(frag, 1..=6), any::<bool>()).prop_map(|(frags, as_questions)| Graph { frags, repeat_last: 0, as_questions, id: 0, tail: 0 }).boxed()
 }
 
 /// reference encodings with stray / twin OPT records and malformed NSEC windows (C11's inputs)
